@@ -45,7 +45,9 @@ Inductive content :=
 | TreesF (t : option nat)                (* complete pickle of the trees for binning t | truncated *)
 | IdsF (ids : list nat)                  (* patch_ids.bin; [] is the 0-byte file *)
 | ResF (v : option nat)                  (* a result file holding value v | truncated / partial *)
-| Junk.                                  (* bytes the abstraction could not classify *)
+| Junk                                   (* bytes the abstraction could not classify *)
+| DataT (recs : list nat).               (* data.bin: header, the complete records recs and a part of one more record
+                                            (a write system call that ended inside a record) *)
 
 Definition binfile_beq (a b : binfile) : bool :=
   match a, b with
@@ -62,6 +64,7 @@ Definition content_beq (a b : content) : bool :=
   | TreesF x, TreesF y => onat_beq x y
   | IdsF x, IdsF y => nlist_eqb x y
   | ResF x, ResF y => onat_beq x y
+  | DataT r, DataT r' => nlist_eqb r r'
   | _, _ => false
   end.
 
@@ -194,6 +197,52 @@ Definition covers (l : list (path * content)) (order : list path) : bool :=
   forallb (fun pc => mem_path (fst pc) order) l.
 Definition valid_order_b (l : list (path * content)) (order : list path) : bool :=
   covers l order && children_first order.
+
+(* ------------------------------------------------------------------ appends above the size of the user-space buffer *)
+(* PatchWriter.flush hands a piece to ndarray.tofile, which writes through a stdio stream on a duplicate of the
+   descriptor: above the size of the stream's buffer the piece reaches data.bin in SEVERAL write system calls (whole
+   blocks first, the rest when the stream is closed).  A cut (c, torn) is the state after one of these calls that is
+   not the last: the file holds the first c records of the piece completely and, if torn, a part of the next one
+   (block size not a multiple of the record size).  How a piece is cut is a PARAMETER (whatever the trace shows); the
+   last system call of a piece completes it.  Without cuts this is ops_pieces. *)
+Definition cut := (nat * bool)%type.
+Definition bpiece := (piece * list cut)%type.
+Definition cut_content (old rs : list nat) (c : cut) : content :=
+  if snd c then DataT (old ++ firstn (fst c) rs) else DataF true (old ++ firstn (fst c) rs).
+Definition cut_ops (p : nat) (old rs : list nat) (cuts : list cut) : list fop :=
+  map (fun c => Put (PData p) (cut_content old rs c)) cuts.
+
+Fixpoint ops_bpieces (acc : list piece) (bps : list bpiece) : list fop * list piece :=
+  match bps with
+  | [] => ([], acc)
+  | ((p, rs), cuts) :: t =>
+      match acc_get acc p with
+      | None =>
+          let (o, a) := ops_bpieces (acc_set acc p rs) t in
+          (Put (PDir p) Dir :: Put (PData p) (DataF false []) :: Put (PData p) (DataF true [])
+             :: cut_ops p [] rs cuts ++ Put (PData p) (DataF true rs) :: o, a)
+      | Some old =>
+          let (o, a) := ops_bpieces (acc_set acc p (old ++ rs)) t in
+          (cut_ops p old rs cuts ++ Put (PData p) (DataF true (old ++ rs)) :: o, a)
+      end
+  end.
+
+Definition unbuf (bps : list bpiece) : list piece := map fst bps.
+Definition ops_bcreate_body (bps : list bpiece) : list fop := Put PRoot Dir :: fst (ops_bpieces [] bps).
+(* the marker and the metadata are those of the unbuffered creation: patch_ids.bin after ALL data *)
+Definition ops_bcreate (bps : list bpiece) : list fop :=
+  ops_bcreate_body bps ++ ops_create_ids (unbuf bps) ++ ops_meta_all (created_ids (unbuf bps)).
+Definition ops_boverwrite (order : list path) (bps : list bpiece) : list fop :=
+  map Del order ++ ops_bcreate bps.
+
+(* the order that is NOT safe: patch_ids.bin written when only the first j system calls of the body have reached
+   the file system (the rest is still in user-space buffers and follows when the writers are closed) *)
+Definition ops_bcreate_early (j : nat) (bps : list bpiece) : list fop :=
+  firstn j (ops_bcreate_body bps) ++ ops_create_ids (unbuf bps) ++ skipn j (ops_bcreate_body bps)
+  ++ ops_meta_all (created_ids (unbuf bps)).
+
+(* run-length notation for long record lists: [(v, n); ...] = n times v, ... *)
+Definition rl (l : list (nat * nat)) : list nat := flat_map (fun vn => repeat (fst vn) (snd vn)) l.
 
 (* ------------------------------------------------------------------ opening a catalog *)
 (* Patch.__init__: meta.yml readable -> header byte of data.bin is read; meta.yml missing
@@ -365,12 +414,14 @@ Inductive workload :=
 | WBuild (s0 : list (path * content)) (ies : list (nat * nat)) (b : nat) (force : bool)
 | WSingle (s0 : list (path * content)) (extra tail v : nat)
 | WTriple (s0 : list (path * content)) (v : nat)
-| WProduct (s0 : list (path * content)) (nd : list path) (ws : list wfile) (nr : list path) (v : nat).
+| WProduct (s0 : list (path * content)) (nd : list path) (ws : list wfile) (nr : list path) (v : nat)
+| WCreateB (bps : list bpiece)
+| WOverwriteB (s0 : list (path * content)) (order : list path) (bps : list bpiece).
 
 Definition w_s0 (w : workload) : fs :=
   match w with
-  | WCreate _ => empty_fs
-  | WOverwrite l _ _ | WMeta l | WBuild l _ _ _ | WSingle l _ _ _ | WTriple l _ | WProduct l _ _ _ _ => fs_of l
+  | WCreate _ | WCreateB _ => empty_fs
+  | WOverwriteB l _ _ | WOverwrite l _ _ | WMeta l | WBuild l _ _ _ | WSingle l _ _ _ | WTriple l _ | WProduct l _ _ _ _ => fs_of l
   end.
 Definition ids_of (s : fs) : list nat := match s PIds with Some (IdsF ids) => ids | _ => [] end.
 
@@ -383,6 +434,8 @@ Definition w_ops (fixed : bool) (w : workload) : list fop :=
   | WSingle _ extra tail v => ops_res_single extra tail v
   | WTriple l v => ops_triple fixed (fs_of l) v
   | WProduct l nd ws _ v => ops_product fixed (fs_of l) nd ws v
+  | WCreateB bps => ops_bcreate bps
+  | WOverwriteB _ order bps => ops_boverwrite order bps
   end.
 
 (* outcome class of the crash state after k operations; req = the later request (tree workloads) *)
@@ -392,7 +445,7 @@ Definition w_class (fixed : bool) (w : workload) (k req : nat) : nat :=
   let sk := apply (firstn k ops) s0 in
   let sf := apply ops s0 in
   match w with
-  | WCreate _ | WOverwrite _ _ _ | WMeta _ =>
+  | WCreate _ | WOverwrite _ _ _ | WMeta _ | WCreateB _ | WOverwriteB _ _ _ =>
       classify obs_beq (recover_cat fixed sk) (recover_cat fixed s0) (recover_cat fixed sf)
   | WBuild _ ies _ _ =>
       let ids := ids_of s0 in
@@ -423,8 +476,8 @@ Definition wf_cat_b (s : fs) : bool :=
   end.
 Definition c08_hyp (w : workload) : nat :=
   match w with
-  | WCreate _ => 0
-  | WOverwrite l order _ => code [wf_cat_b (fs_of l); valid_order_b l order]
+  | WCreate _ | WCreateB _ => 0
+  | WOverwrite l order _ | WOverwriteB l order _ => code [wf_cat_b (fs_of l); valid_order_b l order]
   | WMeta l => code [wf_cat_b (fs_of l)]
   | WBuild l ies _ _ =>
       code [wf_cat_b (fs_of l); forallb (consistent_b (fs_of l)) (ids_of (fs_of l));
